@@ -117,13 +117,12 @@ def _sorted_by(rows, key):
     return True
 
 
-def strategy(sym, op, N, dom):
+def strategy(sym, op, N, dom, mode):
     """Same result as the default call under every strategy argument."""
     make, can_presort, pkey, pair = OPS[op]
     n = nrows(sym, 'n', N)
     rows = _rows(sym, n, dom)
-    mode = sym.pick('mode', ['buffersize', 'config', 'presorted'] if can_presort else ['buffersize', 'config'])
-    bs = sym.pick('bs', [None] + list(range(1, N + 2)))
+    bs = sym.pick('bs', [None, 1, 2, N + 1])
     kw = {}
     saved = petl.config.sort_buffersize
     with pickle_stub(), private_tempdir() as td:
@@ -131,7 +130,7 @@ def strategy(sym, op, N, dom):
         try:
             if mode == 'buffersize':
                 kw = dict(buffersize=bs, cache=sym.flag('cache'))
-                if sym.flag('tempdir'):
+                if bs == 1 and sym.flag('tempdir'):
                     kw['tempdir'] = td
             elif mode == 'config':
                 petl.config.sort_buffersize = bs
@@ -205,12 +204,12 @@ def cache_history(sym, op, n0, H, cache, bs):
         for step in range(H):
             act = sym.choice('h%d' % step, 3)
             if act == 2:
-                if nedits >= len(EDITS):
-                    continue
+                assume(nedits < 2 and (not trace or trace[-1] != 'edit'))    # consecutive edits are one edit
                 # edit the source: append a row and change the key of the first data row
+                # (rows are replaced, never mutated in place: a cache may legitimately hold the old row objects)
                 store.append(list(EDITS[nedits]))
                 if len(store) > 1:
-                    store[1][0] = EDITS[nedits][0]
+                    store[1] = [EDITS[nedits][0]] + list(store[1][1:])
                 nedits += 1
                 trace.append('edit')
                 continue
@@ -221,7 +220,7 @@ def cache_history(sym, op, n0, H, cache, bs):
                 trace.append('full')
                 got = [tuple(r) for r in view]
             else:
-                k = sym.choice('k%d' % step, 3)          # rows taken (incl. header) before abandoning: 0..2
+                k = sym.choice('k%d' % step, 2) + 1      # rows taken (incl. header) before abandoning: 1..2
                 trace.append('partial%d' % k)
                 it = iter(view)
                 got = []
@@ -253,7 +252,7 @@ BOUNDS = {
     'quick': 'part 1: every sort-backed operator over n in [0,3] rows with None|int keys; buffersize in {None,1..4} as argument '
              'or through petl.config.sort_buffersize; cache flag; tempdir set/unset; presorted=True on inputs assumed sorted '
              '(one- and two-input operators, two-input: 2x2); two passes.  part 2: histories of H=4 symbolic steps over '
-             '{full pass, partial pass of 0..2 rows, edit the source}, cache in {T,F}, buffersize in {None,1}, 12 operators',
+             '{full pass, partial pass of 1..2 rows, edit the source}, cache in {T,F}, buffersize in {None,1}, 12 operators',
     'thorough': 'part 1 with n in [0,4] and mixed keys; part 2 with H=6',
 }
 OUTSIDE = 'forgetting to forward buffersize/tempdir (does not change results; not a violation of the statement); pivot with mixed-type column values'
@@ -271,9 +270,16 @@ def jobs(tier):
     B = 240 if q else 1800
     out = []
     for op in OPS:
-        out.append(dict(name='strategy/%s/O/n<=%d' % (op, N), func='strategy', params=dict(op=op, N=N, dom='O'), budget=B))
-        if not q and op != 'pivot':
-            out.append(dict(name='strategy/%s/M/n<=3' % op, func='strategy', params=dict(op=op, N=3, dom='Md2'), budget=B))
+        modes = ['buffersize', 'config'] + (['presorted'] if OPS[op][1] else [])
+        for mode in modes:
+            binary = op in ('join', 'leftjoin', 'rightjoin-R', 'outerjoin', 'antijoin', 'lookupjoin', 'complement',
+                            'intersection', 'diff', 'recordcomplement', 'recorddiff', 'mergesort', 'merge')
+            Nj = N - 1 if (q and (mode == 'config' or binary)) else N
+            out.append(dict(name='strategy/%s/%s/O/n<=%d' % (op, mode, Nj), func='strategy',
+                            params=dict(op=op, N=Nj, dom='O', mode=mode), budget=B))
+            if not q and op != 'pivot':
+                out.append(dict(name='strategy/%s/%s/M/n<=3' % (op, mode), func='strategy',
+                                params=dict(op=op, N=3, dom='Md2', mode=mode), budget=B))
     for op in OPS2:
         a, b = (2, 2) if q else (3, 2)
         out.append(dict(name='presorted2/%s/%dx%d' % (op, a, b), func='strategy2',
@@ -282,6 +288,8 @@ def jobs(tier):
     for op in HOPS:
         for cache in (True, False):
             for bs in (None, 1):
+                if q and bs == 1 and op not in ('sort', 'join', 'distinct', 'groupselectmin'):
+                    continue
                 out.append(dict(name='history/%s/cache=%d/bs=%s/H=%d' % (op, cache, bs, H), func='cache_history',
                                 params=dict(op=op, n0=3, H=H, cache=cache, bs=bs), budget=B))
     return out
